@@ -27,9 +27,13 @@ func (m *PanMap) Inspect() string {
 	var out bytes.Buffer
 	pairs := []Pair{}
 
-	// NOTE: refer map because range cannot treat map pointer
-	for _, p := range *m.Pairs {
-		pairs = append(pairs, p)
+	// NOTE: pairs are collected in insertion order (not in random order of inner map),
+	// otherwise pairs whose keys look the same (like floats 0.12345611 and 0.12345612)
+	// are printed in random order
+	for _, h := range *m.HashKeys {
+		if p, ok := (*m.Pairs)[h]; ok {
+			pairs = append(pairs, p)
+		}
 	}
 
 	out.WriteString("%{")
@@ -56,9 +60,13 @@ func (m *PanMap) Repr() string {
 	var out bytes.Buffer
 	pairs := []Pair{}
 
-	// NOTE: refer map because range cannot treat map pointer
-	for _, p := range *m.Pairs {
-		pairs = append(pairs, p)
+	// NOTE: pairs are collected in insertion order (not in random order of inner map),
+	// otherwise pairs whose keys look the same (like floats 0.12345611 and 0.12345612)
+	// are printed in random order
+	for _, h := range *m.HashKeys {
+		if p, ok := (*m.Pairs)[h]; ok {
+			pairs = append(pairs, p)
+		}
 	}
 
 	out.WriteString("%{")
